@@ -18,7 +18,10 @@ func TestVerifReplayProxyAuthorizationBypass(t *testing.T) {
 	// alice's password-protected route
 	if err := rp.Register(RouteConfig{
 		Domain: "svc.example.com", Location: "/", RouteByHTTPUser: "alice", Username: "alice", Password: "secret",
-		CreateConnFn: func(string) (net.Conn, error) { dialedProtected = true; return nil, errors.New("backend of alice reached") },
+		CreateConnFn: func(string) (net.Conn, error) {
+			dialedProtected = true
+			return nil, errors.New("backend of alice reached")
+		},
 	}); err != nil {
 		t.Fatal(err)
 	}
